@@ -9,6 +9,9 @@ From J5V.model Require CodecDecTime.
 From J5V.proofs Require CodecDecTime.
 From J5V.lib Require Civil Decimal.
 From J5V.proofs Require CodecDecDecimal CodecDecTimeFast.
+From Coq Require Import Permutation.
+From J5V.model Require CodecDecCommute.
+From J5V.proofs Require CodecDecMsgSorted CodecDecReorder CodecDecLenient CodecDecOneofReorder.
 Import ListNotations.
 Local Open Scope N_scope.
 
@@ -374,6 +377,60 @@ Proof.
   apply V_scalar; [reflexivity | reflexivity | split; discriminate | vm_compute; reflexivity].
 Qed.
 
+(* ------------------------------------------------------------------ member reordering *)
+(* The members of a JSON object can be given in any order: if JSONToProto accepts a document, it accepts
+   every document whose root object has the same members in another order, with the same message; and
+   so a permutation is accepted exactly when the original is.  Schema condition [props_commute] (any two
+   properties of the object: their proto paths part into different fields, neither a oneof sibling of the
+   other; or the sets of fields they can touch are disjoint (exposed oneofs); or they are members of one
+   proto oneof, which never both succeed) is decidable; every correspondence case checks it for all
+   objects and oneofs of the real schemas (env_commute in dec_check). *)
+Theorem C03_reordered_document_same_message : forall orc e root props bs bs' ms ms' rest rest' me me',
+  lookup e root = Some (SObject props) -> CodecDecReorder.props_commute e props ->
+  lex bs = (tokens_of (JObj ms) ++ rest, me) -> lex bs' = (tokens_of (JObj ms') ++ rest', me') ->
+  Permutation ms ms' ->
+  forall m', decode_bytes orc e root bs = Ok m' <-> decode_bytes orc e root bs' = Ok m'.
+Proof. exact CodecDecReorder.reordered_document_iff. Qed.
+Print Assumptions C03_reordered_document_same_message.
+
+(* the same for the members of any object body, from any (sorted) state of the enclosing decode *)
+Theorem C03_reordered_object_same_message : forall orc e d props ms ms' m seen m' f,
+  CodecDecReorder.props_commute e props -> Permutation ms ms' -> CodecDecMsgSorted.wf m ->
+  tr_object orc e f d props ms m seen = Ok m' -> exists f', tr_object orc e f' d props ms' m seen = Ok m'.
+Proof. exact CodecDecReorder.reordered_object. Qed.
+Print Assumptions C03_reordered_object_same_message.
+
+Theorem C03_reorder_condition_decidable : forall e ref props, CodecDecCommute.env_commute e = true ->
+  (lookup e ref = Some (SObject props) \/ lookup e ref = Some (SOneof props)) -> CodecDecReorder.props_commute e props.
+Proof. exact CodecDecReorder.env_commute_sound. Qed.
+Print Assumptions C03_reorder_condition_decidable.
+
+(* explicit nulls: members `"k":null` for any properties of the root object, added anywhere among the
+   members, in any order: accepted exactly when the document without them is, with the same message *)
+Theorem C03_null_padded_reordered_document_same_message :
+  forall orc e root props bs bs' ms ms' nulls rest rest' me me',
+  lookup e root = Some (SObject props) -> CodecDecReorder.props_commute e props ->
+  lex bs = (tokens_of (JObj ms) ++ rest, me) -> lex bs' = (tokens_of (JObj ms') ++ rest', me') ->
+  CodecDecReorder.null_members props nulls -> Permutation (nulls ++ ms) ms' ->
+  forall m', decode_bytes orc e root bs = Ok m' <-> decode_bytes orc e root bs' = Ok m'.
+Proof. exact CodecDecReorder.padded_document_iff. Qed.
+Print Assumptions C03_null_padded_reordered_document_same_message.
+
+(* the same for any object body below the nesting bound *)
+Theorem C03_null_padded_object_same_message : forall orc e d props ms ms' nulls m seen m' f,
+  CodecDecReorder.props_commute e props -> CodecDecReorder.null_members props nulls ->
+  Permutation (nulls ++ ms) ms' -> (max_nesting_depth <? d + 1) = false -> CodecDecMsgSorted.wf m ->
+  tr_object orc e f d props ms m seen = Ok m' -> exists f', tr_object orc e f' d props ms' m seen = Ok m'.
+Proof. exact CodecDecReorder.padded_object. Qed.
+Print Assumptions C03_null_padded_object_same_message.
+
+(* {"i":-7,"r":["a"]} and {"r":["a"],"i":-7} on var_env *)
+Example C03_example_reordered :
+  CodecDecCommute.env_commute var_env = true /\
+  decode_bytes no_oracles var_env [78] [123;34;114;34;58;91;34;97;34;93;44;34;105;34;58;45;55;125]
+  = decode_bytes no_oracles var_env [78] var_doc2.
+Proof. split; vm_compute; reflexivity. Qed.
+
 (* ------------------------------------------------------------------ timestamps *)
 (* time.Parse(time.RFC3339, .) is modelled (model/CodecDecTime.v: Go's general layout parser, which
    subsumes the strict fast path) and compared with the real function on every timestamp text of the
@@ -437,6 +494,86 @@ Example C03_example_timestamps :
   CodecDecTime.go_time_parse (T.text T.ex_utc) = Some (1577836800%Z, 0%Z) /\
   CodecDecTime.go_time_parse (T.text (T.mkT 2021 2 29 false 0 0 0 None None)) = None.
 Proof. repeat split; vm_compute; reflexivity. Qed.
+
+(* ------------------------------------------------------------------ the quantifier in one relation *)
+(* [lenient ty j j'] (proofs/CodecDecLenient.v): j' is obtained from j by ANY COMBINATION, AT ANY DEPTH, of
+   - respelling leaves: two spellings that the field kind's conversion maps to the same result (L_scalar,
+     L_enum: quoted / bare numbers, the four base64 forms, enum prefix, timestamps at any offset, ...),
+   - reordering the members of objects (L_object: a permutation) and of oneof bodies (L_oneof: a permutation
+     with at most one "!type" member),
+   - adding explicit null members for properties of objects (L_object: nulls; for an object without
+     members only below the nesting bound, hence the side condition),
+   through arrays, maps, oneof arms and nested objects (insignificant whitespace is absorbed by the
+   tokenizer: documents are related through their token reading).
+   If JSONToProto accepts a document it accepts every lenient variant of it, with the same message. *)
+Theorem C03_lenient_documents_same_message :
+  forall orc e root props bs bs' ms nulls ms1 ms' rest rest' me me' m',
+  CodecDecLenient.env_ok e -> lookup e root = Some (SObject props) ->
+  lex bs = (tokens_of (JObj ms) ++ rest, me) -> lex bs' = (tokens_of (JObj ms') ++ rest', me') ->
+  CodecDecReorder.null_members props nulls -> (nulls = [] \/ ms <> []) -> Permutation (nulls ++ ms) ms1 ->
+  CodecDecLenient.lenient_members orc e props ms1 ms' ->
+  decode_bytes orc e root bs = Ok m' -> decode_bytes orc e root bs' = Ok m'.
+Proof. exact CodecDecLenient.lenient_document. Qed.
+Print Assumptions C03_lenient_documents_same_message.
+
+(* {"i":"-7","r":["a"]} and {"r":["a"],"r":null,"i":-7}: reordered, a null added, the integer bare *)
+Definition len_props : list property :=
+  [mkProp [105] [6] false false [] (FScalar KInt32); mkProp [114] [2] false false [] (FArray (FScalar KString))].
+Example C03_example_lenient :
+  CodecDecCommute.env_commute var_env = true /\
+  CodecDecReorder.null_members len_props [([114], JNull)] /\
+  Permutation ([([114], JNull)] ++ [([105], JStr [45;55]); ([114], JArr [JStr [97]])])
+              [([114], JArr [JStr [97]]); ([114], JNull); ([105], JStr [45;55])] /\
+  CodecDecLenient.lenient_members no_oracles var_env len_props
+    [([114], JArr [JStr [97]]); ([114], JNull); ([105], JStr [45;55])]
+    [([114], JArr [JStr [97]]); ([114], JNull); ([105], JNum [45;55])] /\
+  lex [123;34;114;34;58;91;34;97;34;93;44;34;114;34;58;110;117;108;108;44;34;105;34;58;45;55;125] = (tokens_of (JObj [([114], JArr [JStr [97]]); ([114], JNull); ([105], JNum [45;55])]) ++ [], false) /\
+  decode_bytes no_oracles var_env [78] [123;34;114;34;58;91;34;97;34;93;44;34;114;34;58;110;117;108;108;44;34;105;34;58;45;55;125] = decode_bytes no_oracles var_env [78] var_doc1.
+Proof.
+  split; [vm_compute; reflexivity|]. split.
+  { constructor; [|constructor]. split; [reflexivity|]. eexists. vm_compute. reflexivity. }
+  split.
+  { cbn [app]. eapply perm_trans; [apply perm_skip; apply perm_swap|apply perm_swap]. }
+  split.
+  { apply CodecDecLenient.LM_same. apply CodecDecLenient.LM_same.
+    eapply CodecDecLenient.LM_member; [reflexivity|reflexivity|split; discriminate| |apply CodecDecLenient.LM_nil].
+    apply CodecDecLenient.L_scalar; [reflexivity|reflexivity|split; discriminate|vm_compute; reflexivity]. }
+  split; vm_compute; reflexivity.
+Qed.
+
+(* the same when the root type is a oneof: the body's members ("!type", the arm key, nulls) in any order,
+   at most one "!type", the arm value a lenient variant *)
+Theorem C03_lenient_oneof_documents_same_message :
+  forall orc e root props bs bs' ms ms1 ms' rest rest' me me' m',
+  CodecDecLenient.env_ok e -> lookup e root = Some (SOneof props) ->
+  lex bs = (tokens_of (JObj ms) ++ rest, me) -> lex bs' = (tokens_of (JObj ms') ++ rest', me') ->
+  Permutation ms ms1 -> (CodecDecOneofReorder.type_count ms <= 1)%nat ->
+  CodecDecLenient.lenient_members orc e props ms1 ms' ->
+  decode_bytes orc e root bs = Ok m' -> decode_bytes orc e root bs' = Ok m'.
+Proof. exact CodecDecLenient.lenient_document_oneof. Qed.
+Print Assumptions C03_lenient_oneof_documents_same_message.
+
+(* a oneof body in any order, from any state *)
+Theorem C03_reordered_oneof_same_message : forall orc e d props ms ms' m seen found c m'' f,
+  CodecDecReorder.props_commute e props -> Permutation ms ms' -> (CodecDecOneofReorder.type_count ms <= 1)%nat ->
+  CodecDecMsgSorted.wf m ->
+  tr_oneof orc e f d props ms m seen found c = Ok m'' ->
+  exists f', tr_oneof orc e f' d props ms' m seen found c = Ok m''.
+Proof. exact CodecDecOneofReorder.reordered_oneof. Qed.
+Print Assumptions C03_reordered_oneof_same_message.
+
+(* the schema condition is the computable check that every correspondence case runs on the real schemas *)
+Theorem C03_lenient_condition_decidable : forall e, CodecDecCommute.env_commute e = true -> CodecDecLenient.env_ok e.
+Proof. exact CodecDecLenient.env_ok_of_check. Qed.
+Print Assumptions C03_lenient_condition_decidable.
+
+(* one instant at two offsets is a lenient pair of leaves (with the modelled time.Parse) *)
+Theorem C03_timestamp_spellings_are_lenient : forall orc e f g, T.time_oracle_is_model orc ->
+  T.shape f -> T.shape g -> T.in_range f = true -> T.in_range g = true ->
+  T.instant f = T.instant g -> T.nanos f = T.nanos g ->
+  CodecDecLenient.lenient orc e (FScalar KTimestamp) (JStr (T.text f)) (JStr (T.text g)).
+Proof. exact CodecDecLenient.timestamp_lenient. Qed.
+Print Assumptions C03_timestamp_spellings_are_lenient.
 
 (* the strict fast path of time.Parse (lib/Civil.v parse_rfc3339, against which the encoder's timestamp
    text is proved to read back) is subsumed by the modelled parser *)
